@@ -79,6 +79,9 @@ OPTS = [
     ("text", "from_swc", True, 0, "utf-8"),
     ("path", "from_swc", True, 1, "utf-8"),
     ("text", "read_swc[]", True, 0, "utf-8"),
+    ("path-bytes", "read_swc", True, 0, "utf-8"),
+    ("path-rel", "from_swc", True, 1, "utf-8"),
+    ("fd", "read_swc", False, 2, "utf-8"),
 ]
 OPT_DEFAULT, OPT_EXTRA1, OPT_EXTRA2, OPT_TREE = 0, 2, 4, 11
 
@@ -286,7 +289,7 @@ def check_grammar(case, R):
     n_data = sum(1 for s in lines if s[0] == "d")
     assert len(rows) == n_data
     ctx = lambda: f"text={text!r} opt={opt}"  # noqa: E731
-    tmp = tempfile.mkdtemp(prefix="c02-") if kind.startswith("path") else None
+    tmp = tempfile.mkdtemp(prefix="c02-") if kind.startswith("path") or kind == "fd" else None
     try:
         if n_data == 0:
             R.trivial()
@@ -468,7 +471,8 @@ MENU_K2 = ["short:6", "short:1", "token@0:x", "token@6:x", "token@6:1,5", "token
 MENU_LONG = ["short:6", "token@5:x", "token@6:1,5", "bare:words", "undecodable:line", "undecodable:comment"]
 
 SRC_APIS = [("text", "read_swc"), ("text", "from_swc"), ("bytes", "read_swc"), ("bytes", "from_swc"), ("bytes:1", "read_swc"),
-            ("bytes:2", "read_swc"), ("bytes:7", "from_swc"), ("path", "read_swc"), ("path", "from_swc"), ("path", "population")]
+            ("bytes:2", "read_swc"), ("bytes:7", "from_swc"), ("path", "read_swc"), ("path", "from_swc"), ("path", "population"),
+            ("path-bytes", "from_swc"), ("path-rel", "read_swc")]
 SRC_APIS_K2 = [("text", "read_swc"), ("bytes", "from_swc"), ("path", "population")]
 SRC_APIS_LONG = [("text", "read_swc"), ("bytes", "read_swc"), ("bytes:1", "read_swc"), ("bytes:7", "from_swc"),
                  ("bytes:8192", "read_swc"), ("path", "read_swc"), ("path", "population")]
